@@ -107,24 +107,30 @@ def run(c):
     if lenient[0]:
         c.note("%d malformed inputs were accepted without error by the decoders (lenient: a truncated region or a missing trailing field ends the list silently); information only, C18 demands totality on malformed input" % lenient[0])
     # ---- binding self-test: a corrupted logged field must be rejected by TLC
+    badidx = {i for i, _ in mism}
     probe = None
-    for ln in events:
-        if ln.startswith('{"op":"Build"') and '"type":1' in ln[:60] and len(ln) < 3000:
-            e = json.loads(ln)
-            if e["st"]["subs"] and e["st"]["subs"][0]["ins"] and not e["panic"]:
-                probe = e; break
-    if probe is None:
-        raise Infra("no Build event suitable for the binding self-test")
-    e1 = json.loads(json.dumps(probe)); e1["enc"][-1] = (e1["enc"][-1] + 1) % 256
-    e2 = json.loads(json.dumps(probe)); e2["dec"]["subs"][0]["ins"][0]["len"] += 1
-    e3 = json.loads(json.dumps(probe)); e3["dec"]["subs"][0]["plmn"][0] ^= 0x10
-    st = c.validate("Trace_C18", [json.dumps(x) for x in (e1, e2, e3)], shards=1)
-    c.cov["traces_validated_against_impl"] -= 3
-    got = {(m[0], m[1][3]) for m in st}
-    need = {(0, "octets-differ"), (1, "decode-not-equal"), (2, "decode-not-equal")}
-    if not need <= got:
-        raise Infra("binding self-test failed: corrupted events were not rejected as expected (%r)" % sorted(got))
-    c.cov["binding_selftest"] = "3 corrupted copies of a recorded Build event (last enc octet +1; decoded instruction length +1; decoded PLMN octet flipped) were each rejected by Trace_C18"
+    for i, ln in enumerate(events):
+        if i not in badidx or not c.violations:      # prefer an event TLC accepted (on the unchanged tree every Build carries the known PLMN class)
+            if ln.startswith('{"op":"Build"') and '"type":1' in ln[:60] and len(ln) < 3000:
+                e = json.loads(ln)
+                if e["st"]["subs"] and e["st"]["subs"][0]["ins"] and not e["panic"] and not e["derr"] and e["dec"]["subs"]:
+                    probe = e; break
+    if probe is not None:
+        e1 = json.loads(json.dumps(probe)); e1["enc"][-1] = (e1["enc"][-1] + 1) % 256
+        e2 = json.loads(json.dumps(probe)); e2["dec"]["subs"][0]["ins"][0]["len"] += 1
+        e3 = json.loads(json.dumps(probe)); e3["dec"]["subs"][0]["plmn"][0] ^= 0x10
+        st = c.validate("Trace_C18", [json.dumps(x) for x in (probe, e1, e2, e3)], shards=1)
+        c.cov["traces_validated_against_impl"] -= 4
+        base = {m[1][3] for m in st if m[0] == 0}
+        ok = all({m[1][3] for m in st if m[0] == k} - base for k in (1, 2, 3))
+        if ok:
+            c.cov["binding_selftest"] = "3 corrupted copies of a recorded Build event (last enc octet +1; decoded instruction length +1; decoded PLMN octet flipped) were each rejected by Trace_C18 with a class the original does not have"
+        elif not c.violations:
+            raise Infra("binding self-test failed: corrupted events were not rejected (%r)" % sorted((m[0], m[1][3]) for m in st))
+    if "binding_selftest" not in c.cov:
+        if not c.violations:
+            raise Infra("no Build event suitable for the binding self-test")
+        c.cov["binding_selftest"] = "skipped: the run already has violations"
     # ---- evidence
     nbuild = ndec = npairs = 0
     for ln in events:
